@@ -224,6 +224,16 @@ def run_shard(spec):
         elif mode != "none":
             cache = cachecfg.build(mode, scratch).cache
         rounds = 1 if cache is None else 2
+        if cache is not None and "~X~" in q and (hash(q) & 3) == 1:
+            # the link sub-queries are already in the cache when the query is evaluated for the first time: they still are
+            # sub-queries of this evaluation and have to be recorded as such
+            set_cache(cache)
+            for lq in E.link_queries_of(q):
+                try:
+                    Context().evaluate(lq)
+                except Exception:
+                    pass
+            env.count("link_targets_cached_beforehand")
         for rnd_i in range(rounds):
             where_r = "returned" if rnd_i == 0 else "returned_warm"
             set_cache(cache if cache is not None else NoCache())
